@@ -30,7 +30,7 @@ THRESHOLDS = {"quick": {**{f"c05:{f}:{c}": 30 for f in FORMATS for c in ("memory
                         "c05:collection-empty-member": 10, "c05:no-meta-at-all": 30, "c05:precollected": 30, "c05:with-meta": 100,
                         "c05:len>=100": 8, "c05:one-cell-solution": 30, "c05:two-cell-solution": 30, "c05:meta-keys-compared": 100,
                         "c05:auto-picked-minimal": 20, "c05:auto-picked-full": 20,
-                        "c05:solution>127-cells": 20, "c05:solution>255-cells": 3, "c05:len>127": 8, "c05:float-metadata-key-many-digits": 60, "c05:collection-members-with-equal-configs": 20, "c05:filter-history": 100, "c05:filter-history-repeated-entry": 30, "c05:total-solution-cells>32767": 8}}
+                        "c05:solution>127-cells": 20, "c05:solution>255-cells": 3, "c05:len>127": 8, "c05:overwrite-same-config": 40, "c05:reserialize-after-in-place-edit": 120, "c05:float-metadata-key-many-digits": 60, "c05:collection-members-with-equal-configs": 20, "c05:filter-history": 100, "c05:filter-history-repeated-entry": 30, "c05:total-solution-cells>32767": 8}}
 THRESHOLDS["thorough"] = dict(THRESHOLDS["quick"])
 ANCHORS = ["maze_dataset.dataset.maze_dataset:MazeDataset.serialize", "maze_dataset.dataset.maze_dataset:MazeDataset.load",
            "maze_dataset.dataset.maze_dataset:MazeDataset._load_full", "maze_dataset.dataset.maze_dataset:MazeDataset._load_minimal",
@@ -257,6 +257,46 @@ def roundtrips(ctx, make_ds, j, rng, tags, n):
             import traceback
             sub = "no-meta-at-all" if "no-meta-at-all" in tags else ("with-meta" if "with-meta" in tags else "precollected")
             ctx.violation(f"{mech}/{sub}/exception/{type(e).__name__}", traceback.format_exc()[-1800:], case)
+        finally:
+            md.set_serialize_minimal_threshold(old_thr)
+    # (a) a file that already holds a dataset with an equal configuration is overwritten by save(): the reader gets what was saved
+    #     last;  (b) the same dataset object serialized again after its public maze list was reordered / extended in place
+    if j % 2 == 0 and n >= 2:
+        old_thr = md.SERIALIZE_MINIMAL_THRESHOLD
+        try:
+            thr = [None, 1][(j // 2) % 2]
+            md.set_serialize_minimal_threshold(thr)
+            with warnings.catch_warnings():
+                warnings.simplefilter("ignore")
+                a = make_ds()
+                b = make_ds()
+                b.mazes.reverse()                      # equal configuration, other order of mazes
+                snap_b = snapshot(b)
+                path = os.path.join(ctx.work, f"c05-{j}-over.zanj")
+                a.save(path)
+                b.save(path)
+                loaded = MazeDataset.read(path)
+                os.unlink(path)
+            ctx.ev(); ctx.tally("c05:overwrite-same-config")
+            exp_meta = meta_norm(b.generation_metadata_collected) if b.generation_metadata_collected is not None else snap_b["meta"]
+            compare(ctx, snap_b, cfg_fields(b.cfg), loaded, "C05/overwrite-existing-file-with-equal-config", dict(j=j, n=n, threshold=thr, tags=tags), expect_meta_from=exp_meta)
+            for fmt in ("minimal", "minimal_soln_cat", "full"):
+                with warnings.catch_warnings():
+                    warnings.simplefilter("ignore")
+                    ds = make_ds()
+                    ser = {"full": ds._serialize_full, "minimal": ds._serialize_minimal, "minimal_soln_cat": ds._serialize_minimal_soln_cat}[fmt]
+                    MazeDataset.load(ser())            # first serialization of this object
+                    ds.mazes.sort(key=lambda m: (len(m.solution), m.solution.tobytes()))   # in-place reorder by solution length
+                    if (j // 2) % 3 == 0:
+                        ds.mazes.extend(make_ds().mazes[:2]); ds.update_self_config()
+                    snap2 = snapshot(ds)
+                    loaded2 = MazeDataset.load(ser())
+                ctx.ev(); ctx.tally("c05:reserialize-after-in-place-edit")
+                exp_meta = meta_norm(ds.generation_metadata_collected) if ds.generation_metadata_collected is not None else snap2["meta"]
+                compare(ctx, snap2, cfg_fields(ds.cfg), loaded2, f"C05/{fmt}/reserialize-after-in-place-edit", dict(j=j, n=n, fmt=fmt, tags=tags), expect_meta_from=exp_meta)
+        except Exception as e:  # noqa: BLE001
+            import traceback
+            ctx.violation(f"C05/overwrite-or-reserialize/exception/{type(e).__name__}", traceback.format_exc()[-1500:], dict(j=j, n=n, tags=tags))
         finally:
             md.set_serialize_minimal_threshold(old_thr)
     # explicit minimal formats through a file: write the serialized form with zanj directly
